@@ -236,6 +236,8 @@ class Run:
         # the run it always was
         self.rng2 = random.Random(case["seed"] * 7919 + 13)
         self.hang_plan = self.rng2.random() < HANG_MODES.get(self.mode, 0)
+        # faults mode: the single fault strikes in any round, not mostly in the first one
+        self.fault_after = self.rng2.choice([0, 0, 0, 15, 30, 60, 100, 150])
         self.hangs_done = 0
         self.cancel_runs = 0
         self.node_faults = 0
@@ -528,7 +530,7 @@ class Run:
                 c += [h for h, b in vc.slurm.items() if b["state"] == "pending"]
                 if c:
                     return ["nodelost", rng.choice(c)]
-        if mode == "faults" and not self.fault_done:
+        if mode == "faults" and not self.fault_done and len(self.ops) >= self.fault_after:
             subs = [p for p in vc.live() if p.kind in ("submit", "trysubmit") and vc.enabled(p.pid)]
             nested = [p for p in subs if p.holding and p.at[0] == "ACQ"]
             if nested and rng.random() < .25:
@@ -537,7 +539,13 @@ class Run:
                 p = rng.choice(nested)
                 self.fault_done = True
                 self.fault_kind = rng.choice(["killin", "failwrite"])
-                return [self.fault_kind, p.pid, rng.randrange(0, 3)] + self.late_flavour()
+                # the section mutates twice: open(consolidated file, append), remove(node file).  Fault points: before the
+                # open, after the open (file opened, nothing written yet), before the removal
+                k = rng.randrange(0, 3)
+                if k == 2:
+                    self.fault_kind += ".late"
+                    return [self.fault_kind.split(".")[0], p.pid, 0, "late"]
+                return [self.fault_kind, p.pid, k]
             if subs and rng.random() < .12:
                 p = rng.choice(subs)
                 self.fault_done = True
@@ -1789,7 +1797,12 @@ class SystemSuite(Suite):
             return d
         for i, (o, e, ev) in enumerate(zip(model["outs"], h["expected"], h["events"])):
             if ev["op"] == "summary":
-                if sorted(o["rows"]) != ev["_rows"] or o["missing"] != ev["_missing"]:
+                # A duplicate row in the consolidated file (left by a submitter that failed between copy and removal in
+                # `_move_results`) can make len(results) == num_jobs although a job has no result: the unchanged
+                # `_handle_completion` then reports no missing job at all (findings/f9e_duplicate_row_masks_missing.py,
+                # reported; outside the quantifiers of C11/C12).  On such histories only the rows are compared.
+                dup = len({r[0] for r in ev["_rows"]}) != len(ev["_rows"])
+                if sorted(o["rows"]) != ev["_rows"] or (o["missing"] != ev["_missing"] and not dup):
                     d.append(f"event {i} summary: model {o} observed missing={ev['_missing']} rows={ev['_rows']}")
                 continue
             if e == "*" or o == "stutter":
